@@ -53,7 +53,7 @@ def doStep (s : Store) (op : Op) : Store × String :=
 
 def demoStep (s : Store) (toks : List String) : Store × String :=
   match toks with
-  | ["reset", k] => (.leaf (Layer.empty (k = "file" || k = "blob" || k = "hexfile" || k = "cfgfile")), "ok")
+  | ["reset", k] => (.leaf (Layer.empty (k = "file" || k = "blob" || k = "hexfile" || k = "cfgfile" || k = "wcfgfile")), "ok")
   | ["begin", x, t] =>
     (match x.toNat?, tidArg t with
      | some x, some t => doStep s (.begin x (some t) 0)
@@ -97,7 +97,7 @@ def demoStep (s : Store) (toks : List String) : Store × String :=
   | ["newoid", ds] => (match natList ds with | some ds => doStep s (.newOid ds) | none => (s, "bad-op"))
   | ["push", d] => (match d.toNat? with | some d => doStep s (.push d) | none => (s, "bad-op"))
   | ["pushwith", k, d] =>
-    (match d.toNat? with | some d => doStep s (.pushWith (k = "file" || k = "blob" || k = "hexfile" || k = "cfgfile") d) | none => (s, "bad-op"))
+    (match d.toNat? with | some d => doStep s (.pushWith (k = "file" || k = "blob" || k = "hexfile" || k = "cfgfile" || k = "wcfgfile") d) | none => (s, "bad-op"))
   | ["pop"] => doStep s .pop
   | ["lb", o, t] =>
     (match o.toNat?, tidArg t with
